@@ -37,8 +37,14 @@ def run(ctx):
     n = 180 if ctx.tier == "quick" else 2400
     args = ["-n", str(n)] + (["-big"] if ctx.tier == "thorough" else [])
     only = None
+    recorded = None
     if ctx.replay:
         rp = json.load(open(ctx.replay))
+        if rp.get("case_coq", "").startswith("(Build_case") and rp["case_coq"].count("(") == rp["case_coq"].count(")"):
+            # the recorded observation is re-evaluated as well (timing makes a fresh run differ)
+            recorded = dict(id=str(rp.get("case")) + "-recorded", kind="store", coq=rp["case_coq"], nontrivial=True, hash="recorded",
+                            dist=rp.get("dist") or {"plans": 0, "recovery": True, "max_age": "?", "file_backed": False, "new_ms": 0},
+                            input=rp.get("input") or {}, observed=rp.get("store") or [])
         only = rp.get("input", {}).get("index")
         if only is not None:
             args = ["-n", str(int(only) + 1), "-only", str(only)] + (["-big"] if rp.get("tier") == "thorough" else [])
@@ -47,6 +53,8 @@ def run(ctx):
     if cases is None:
         ctx.evidence(dict(evaluations=0, distinct_nontrivial=0, rule="harness did not run", samples=[]))
         return
+    if recorded is not None:
+        cases = [recorded] + cases
     good = [c for c in cases if c.get("coq")]
     lost = [c for c in cases if not c.get("coq")]
     terms = [c["coq"] for c in good]
@@ -88,7 +96,7 @@ def run(ctx):
         ctx.violation(dict(
             kind="recovery-selection-differs" if not monfalse else "property-violated",
             why=why, monitor_false=monfalse, case=c["id"], input=c["input"], dist=c["dist"], offending_plan=plan_obs,
-            store=c["observed"], failing_cases=len(bad), case_coq=c["coq"][:30000],
+            store=c["observed"], failing_cases=len(bad), case_coq=c["coq"],
             broken=None if monfalse else "corr_ok (SelectCheck.case_ok): the implementation's recovery left a store the model does not predict",
             replay_cmd="VERIF_SEED=%s ./check C11 --tier %s   (store index %s; or ./check C11 --replay <this file>)"
                        % (ctx.seed, ctx.tier, c["input"].get("index"))),
